@@ -58,6 +58,8 @@ class Ctx:
             if f not in self.builds:
                 self.builds[f] = build.ensure_build(f)
         self.zy = {}
+        self.flavours = tuple(flavours)
+        self.vg_build = None
         self.default_flavour = flavours[0] if flavours else "asan"
         self.white_box = all(b["white_box"] for b in self.builds.values())
         self.counters = collections.Counter()
@@ -67,9 +69,10 @@ class Ctx:
         if k not in self.zy:
             if flavour == "valgrind":
                 # memcheck over the optimised (plain) build
-                if "plain" not in self.builds:
-                    self.builds["plain"] = build.ensure_build("plain")
-                self.zy[k] = proto.Zygote(self.builds["plain"][tool], valgrind=True)
+                # (kept apart from self.builds: what a case does must not depend on which cases ran before it)
+                if self.vg_build is None:
+                    self.vg_build = self.builds.get("plain") or build.ensure_build("plain")
+                self.zy[k] = proto.Zygote(self.vg_build[tool], valgrind=True)
             else:
                 self.zy[k] = proto.Zygote(self.builds[flavour][tool])
         return self.zy[k]
